@@ -67,6 +67,7 @@ func extraLean(repo string) []string {
 func structuralFacts(repo string) map[string]interface{} {
 	return map[string]interface{}{
 		"cachekv_locking": cachekvLocking(repo),
+		"map_ranges":      mapRanges(repo),
 	}
 }
 
